@@ -10,7 +10,10 @@ PROP = {'engine': 'stack',
          'consecutive faulty generations with random point, exit status, warm-up invocations, pending/next timing, subscriptions. Oracle: outcome '
          'table derived from the statement (502; delivered response / init-error payload / JSON naming the first fault with the request id / empty), '
          "all processes gone before the answer, two following invocations served by new processes. Non-trivial: anything but 'runtime exits with a "
-         "non-zero code after next, no extensions'.",
+         "non-zero code after next, no extensions'. Later additions: a bystander extension that reports exit/error while the environment is torn "
+         'down; an `idle` fault of the first generation that overtakes the end of the initialisation is judged as an initialisation fault; the fixed '
+         'case `adoptDemo` orders the known finding (request of a killed process adopted by the next generation) with the pause point rapi.next, so '
+         'that its attribution is exercised in every run.',
  'assumptions': ['fake process supervisor (DESIGN 3.4)',
                  'a fault during a re-initialisation inside an invocation may answer either empty or the JSON naming the fault (DESIGN C06)'],
  'level_text': 'enumeration of the finite crash-point product (complete in the thorough tier for the listed factor levels) plus random search over '
